@@ -250,6 +250,11 @@ impl TlSpec {
         cfg
     }
 
+    /// Is the given easing in force anywhere in this timeline (default or per keyframe)?
+    pub fn uses_easing(&self, e: u8) -> bool {
+        self.easing == e || self.kfs.iter().any(|k| k.easing == Some(e))
+    }
+
     pub fn uses_back(&self) -> bool {
         is_back(self.easing) || self.kfs.iter().any(|k| k.easing.map(is_back).unwrap_or(false))
     }
